@@ -61,7 +61,12 @@ def gen_seq(rng, allow_bad):
         elif r < 0.33:
             # a wrapper converting arguments through temporary buffers (no handle involved: no model operation)
             ntrim = rng.choice([0, 0, 1, 3, 7, 19, 20, 24])
-            lines.append("tmp %d %d %d" % (rng.randint(1, 5), ntrim, ntrim + rng.choice([0, 0, 1, 5, 21])))
+            which = rng.randint(1, 6)
+            if which == 6:
+                # a std::vector<int> result of ntrim elements copied into a caller array that may be SHORTER, equal or longer
+                lines.append("tmp 6 %d %d" % (ntrim, rng.choice([0, 1, 2, max(ntrim - 2, 0), ntrim, ntrim + 4])))
+            else:
+                lines.append("tmp %d %d %d" % (which, ntrim, ntrim + rng.choice([0, 0, 1, 5, 21])))
         elif r < 0.4:
             a = rng.randint(0, 4)
             mops.append("B:%d" % a)
